@@ -184,6 +184,7 @@ var scenarios = []scenario{
 	{"flow", scFlow},
 	{"big-joint", scBigJoint},
 	{"ack-race", scAckRace},
+	{"snapshot-race", scSnapshotRace},
 }
 
 // an old leader is cut off (alone or with a minority) and keeps acting while
@@ -272,7 +273,7 @@ func scLaggingSnapshot(d *Driver) {
 	}
 	d.propose(l, 1+d.r.Intn(2), false)
 	d.settle(20 + d.r.Intn(30))
-	if len(d.c.IDs) == 3 && (pct(d.r, 50) || os.Getenv("VERIF_DEBUG_SC") != "") {
+	if len(d.c.IDs) == 3 && (pct(d.r, 50) || os.Getenv("VERIF_DEBUG_SC") == "tail") {
 		scHigherTermTail(d, l)
 		return
 	}
@@ -281,10 +282,13 @@ func scLaggingSnapshot(d *Driver) {
 		return
 	}
 	if d.c.Nodes[f].Cfg.Async && len(oth) >= 2 && pct(d.r, 50) {
-		if pct(d.r, 50) {
+		switch d.r.Intn(3) {
+		case 0:
 			scApplyVsSnapshot(d, l, f)
-		} else {
+		case 1:
 			scSnapshotAckAfterTermChange(d, l, f)
+		default:
+			scTwoSnapshotsRacing(d, l, f)
 		}
 		return
 	}
@@ -541,6 +545,128 @@ func scSnapshotAckAfterTermChange(d *Driver, l *AppNode, f uint64) {
 		d.c.Do(Step{Act: "Campaign", Node: other})
 		d.with(p, 25)
 	}
+	d.unfreeze()
+	p.Tick = 8
+	d.with(p, 80)
+	for k := 0; k < 4; k++ {
+		d.reportStaleSnapshots()
+		d.with(p, 20)
+	}
+}
+
+// an asynchronous follower falls behind and two snapshots race at it (see scTwoSnapshotsRacing)
+func scSnapshotRace(d *Driver) {
+	l := d.elect(300)
+	if l == nil {
+		return
+	}
+	var cand []uint64
+	for _, id := range d.others(l.ID) {
+		if d.c.Nodes[id].Cfg.Async && hasVoter(l, id) {
+			cand = append(cand, id)
+		}
+	}
+	if len(cand) == 0 || len(d.others(l.ID)) < 2 {
+		d.settle(100)
+		return
+	}
+	d.propose(l, 1+d.r.Intn(2), false)
+	d.settle(20 + d.r.Intn(30))
+	if d.c.up(l.ID) == nil || !safeIsLeader(l.RN) {
+		d.settle(100)
+		return
+	}
+	scTwoSnapshotsRacing(d, l, d.pick(cand))
+}
+
+// two snapshots race at an asynchronous follower: the write of snapshot A is with f's (slow) append thread
+// when the leader, which has compacted again, sends the newer snapshot B; f accepts B, and only then is the
+// write of A carried out and acknowledged
+func scTwoSnapshotsRacing(d *Driver, l *AppNode, f uint64) {
+	d.frozenApply[f] = false
+	d.runNode(f)
+	d.isolate([]uint64{f})
+	d.dropWhere(func(m *pb.Message) bool { return m.GetTo() == f || m.GetFrom() == f })
+	caughtUp := func() bool {
+		st, perr := safeState(l.RN)
+		return perr != "" || (st.Commit == st.LastIndex && st.Applied == st.Commit)
+	}
+	compact := func() {
+		if _, hi := d.c.snapBounds(l); hi > 1 {
+			if d.c.Do(Step{Act: "Snapshot", Node: l.ID, K: hi}) {
+				d.c.Do(Step{Act: "Compact", Node: l.ID, K: hi})
+			}
+		}
+	}
+	snapOnWire := func() bool {
+		for _, nm := range d.c.Net {
+			if nm.M.GetType() == pb.MsgSnap && nm.M.GetTo() == f {
+				return true
+			}
+		}
+		return false
+	}
+	d.propose(l, 2+d.r.Intn(3), false)
+	d.waitFor(60, caughtUp)
+	if d.c.up(l.ID) == nil || !safeIsLeader(l.RN) {
+		d.heal()
+		d.settle(100)
+		return
+	}
+	compact()
+	d.heal()
+	d.holdTypes[pb.MsgSnap] = true
+	p := calm
+	p.Tick = 0
+	for k := 0; k < 25 && !snapOnWire(); k++ {
+		d.c.Do(Step{Act: "Tick", Node: l.ID})
+		d.with(p, 12)
+		d.reportStaleSnapshots()
+	}
+	d.frozenAppend[f] = true
+	d.releaseHolds()
+	d.deliverSel(MsgSel{Type: "Snap", To: f})
+	d.pipeline(f)
+	queued := func() bool {
+		n := d.c.up(f)
+		if n == nil {
+			return true
+		}
+		for _, m := range n.AppendQ {
+			if m.GetSnapshot() != nil && m.GetSnapshot().GetMetadata().GetIndex() > 0 {
+				return true
+			}
+		}
+		return false
+	}
+	dbg("two-snapshots: first snapshot write queued at f:", queued())
+	// the group moves on without f's acknowledgements and the leader compacts again
+	d.propose(l, 2+d.r.Intn(4), false)
+	d.waitFor(60, caughtUp)
+	if d.c.up(l.ID) == nil || !safeIsLeader(l.RN) {
+		d.unfreeze()
+		d.settle(100)
+		return
+	}
+	compact()
+	d.dropWhere(func(m *pb.Message) bool { return m.GetType() == pb.MsgSnap && m.GetTo() == f })
+	d.holdTypes[pb.MsgSnap] = true
+	d.c.Do(Step{Act: "ReportSnapshot", Node: l.ID, To: f, Ok: pct(d.r, 60)})
+	for k := 0; k < 25 && !snapOnWire(); k++ {
+		d.c.Do(Step{Act: "Tick", Node: l.ID})
+		d.with(p, 12)
+	}
+	// f takes the newer snapshot; in most runs its raft loop does not get to hand it on before the
+	// acknowledgement of the older one comes back
+	d.frozenReady[f] = pct(d.r, 70)
+	d.releaseHolds()
+	got := d.deliverSel(MsgSel{Type: "Snap", To: f})
+	dbg("two-snapshots: second snapshot delivered:", got, "ready frozen:", d.frozenReady[f])
+	if !d.frozenReady[f] && pct(d.r, 50) {
+		d.pipeline(f)
+	}
+	d.frozenAppend[f] = false
+	d.c.Do(Step{Act: "AppendThread", Node: f})
 	d.unfreeze()
 	p.Tick = 8
 	d.with(p, 80)
